@@ -17,14 +17,14 @@ namespace Hap.Race
     object other than `_value` exists only while the worker is between its assignment and its
     cache clear, or while the loop thread is between storing the cache and finishing the re-check. -/
 theorem C20_no_stale_window (bits : List Bool) (s0 : Cfg) (hq : Quiet s0) (hf : Fresh s0) :
-    let s := run true bits s0
+    let s := run repaired bits s0
     Fresh s ∨ WorkerWillClear s ∨ LoopWillCheck s :=
-  (cacheInv_run bits s0 (cacheInv_of_quiet_fresh s0 hq hf)).2
+  (cacheInv_run true bits s0 (cacheInv_of_quiet_fresh s0 hq hf)).2
 
 /-- **C20_no_stale.**  Whenever both threads are between operations (in particular when both
     programs have finished), the cache is absent or renders the current value object. -/
 theorem C20_no_stale (bits : List Bool) (s0 : Cfg) (hq : Quiet s0) (hf : Fresh s0) :
-    Quiet (run true bits s0) → Fresh (run true bits s0) := by
+    Quiet (run repaired bits s0) → Fresh (run repaired bits s0) := by
   intro hq'
   rcases C20_no_stale_window bits s0 hq hf with h | h | h
   · exact h
@@ -34,7 +34,7 @@ theorem C20_no_stale (bits : List Bool) (s0 : Cfg) (hq : Quiet s0) (hf : Fresh s
 /-- **The update is not lost.**  For a loop program that contains no controller write of this
     characteristic: once the worker has finished, `_value` is the object of its last accepted
     `set_value` (the initial value if none was accepted), whatever the schedule. -/
-theorem C20_update_not_lost (fix : Bool) (bits : List Bool) (s0 : Cfg) (h0 : s0.wpc = .idle)
+theorem C20_update_not_lost (fix : Variant) (bits : List Bool) (s0 : Cfg) (h0 : s0.wpc = .idle)
     (hn : NoWrite s0.lops)
     (hw : (run fix bits s0).wpc = .idle) (hu : (run fix bits s0).wups = []) :
     (run fix bits s0).value = lastValid s0.value s0.wups := by
@@ -45,30 +45,31 @@ theorem C20_update_not_lost (fix : Bool) (bits : List Bool) (s0 : Cfg) (h0 : s0.
   rw [← h2, h, h1]
 
 /-- A later read: from a quiet configuration with a fresh cache, `to_HAP` run to completion shows
-    the current value (3 steps on a cache hit, 5 on a miss: begin, check, read, store, re-check). -/
+    the current value (2 steps on a cache hit: begin, test-and-return; 5 on a miss: begin, check,
+    read, store, re-check). -/
 theorem C20_read_after_quiet (s : Cfg) (rest : List LoopOp) (hq : Quiet s) (hf : Fresh s)
     (hl : s.lops = .toHAP :: rest) :
-    ∃ n, let s' := run true (List.replicate n true) s
+    ∃ n, let s' := run repaired (List.replicate n true) s
       s'.lpc = .idle ∧ s'.lops = rest ∧ s'.results = s.results ++ [.rep s.value] ∧ Fresh s' := by
   obtain ⟨hlp, _⟩ := hq
   rcases hf with hc | hc
   · refine ⟨5, ?_⟩
-    simp [List.replicate, run, step, stepLoop, hlp, hl, hc, ret, Fresh]
-  · refine ⟨3, ?_⟩
-    simp [List.replicate, run, step, stepLoop, hlp, hl, hc, ret, Fresh]
+    simp [List.replicate, run, step, stepLoop, hlp, hl, hc, ret, Fresh, repaired]
+  · refine ⟨2, ?_⟩
+    simp [List.replicate, run, step, stepLoop, hlp, hl, hc, ret, Fresh, repaired]
 
 /-- **Subsequent reads show the new value** (C20_no_stale + C20_update_not_lost + the read):
     after any schedule in which the worker has finished and the loop thread is between operations,
     the next `to_HAP` shows the worker's last accepted value. -/
 theorem C20_subsequent_read (bits : List Bool) (s0 : Cfg) (hq : Quiet s0) (hf : Fresh s0)
     (hn : NoWrite s0.lops) (rest : List LoopOp) :
-    let s := run true bits s0
+    let s := run repaired bits s0
     Quiet s → s.wups = [] → s.lops = .toHAP :: rest →
-    ∃ n, (run true (List.replicate n true) s).results
+    ∃ n, (run repaired (List.replicate n true) s).results
           = s.results ++ [.rep (lastValid s0.value s0.wups)] := by
   intro s hq' hu hl
   have hfresh := C20_no_stale bits s0 hq hf hq'
-  have hv : s.value = lastValid s0.value s0.wups := C20_update_not_lost true bits s0 hq.2 hn hq'.2 hu
+  have hv : s.value = lastValid s0.value s0.wups := C20_update_not_lost repaired bits s0 hq.2 hn hq'.2 hu
   obtain ⟨n, hn⟩ := C20_read_after_quiet s rest hq' hfresh hl
   exact ⟨n, by rw [← hv]; exact hn.2.2.1⟩
 
@@ -82,9 +83,9 @@ theorem C20_subsequent_read (bits : List Bool) (s0 : Cfg) (hq : Quiet s0) (hf : 
     worker is between updates the most recent item of `c`'s pipeline (hand-off queue, else the
     queued coalesced entry, else what the controller last learned: last event written to it or its
     own last acknowledged write) carries the current value. -/
-theorem C20_event (fix : Bool) (c : Conn) (bits : List Bool) (s0 : Cfg)
+theorem C20_event (fix : Variant) (c : Conn) (bits : List Bool) (s0 : Cfg)
     (hq : Quiet s0) (hk : s0.topicKey = true) (hc : c ∈ s0.subs)
-    (hun : ∀ op ∈ s0.lops, op ≠ LoopOp.unsub c)
+    (hun : ∀ op ∈ s0.lops, op ≠ LoopOp.unsub c ∧ op ≠ LoopOp.lost c)
     (hpt : s0.pending c ≠ none → s0.timer c = true)
     (h0 : (latest c s0).val = s0.value.val)
     (hs : Serial fix bits s0) :
@@ -100,9 +101,9 @@ theorem C20_event (fix : Bool) (c : Conn) (bits : List Bool) (s0 : Cfg)
 /-- **A queued entry always has a flush scheduled** (same hypotheses): whatever discards, repeated
     subscriptions, writes and timer expiries happened, if `c` has a queued event then its
     coalescing timer is armed — so the entry will be written when the timer fires. -/
-theorem C20_pending_has_timer (fix : Bool) (c : Conn) (bits : List Bool) (s0 : Cfg)
+theorem C20_pending_has_timer (fix : Variant) (c : Conn) (bits : List Bool) (s0 : Cfg)
     (hq : Quiet s0) (hk : s0.topicKey = true) (hc : c ∈ s0.subs)
-    (hun : ∀ op ∈ s0.lops, op ≠ LoopOp.unsub c)
+    (hun : ∀ op ∈ s0.lops, op ≠ LoopOp.unsub c ∧ op ≠ LoopOp.lost c)
     (hpt : s0.pending c ≠ none → s0.timer c = true)
     (h0 : (latest c s0).val = s0.value.val)
     (hs : Serial fix bits s0) :
@@ -116,9 +117,9 @@ theorem C20_pending_has_timer (fix : Bool) (c : Conn) (bits : List Bool) (s0 : C
     drained, `c`'s timer not armed (every scheduled flush has fired): nothing is left queued for
     `c`, and what it last learned (last event written to it, or its own acknowledged write if that
     came later) is the current value. -/
-theorem C20_event_quiescent (fix : Bool) (c : Conn) (bits : List Bool) (s0 : Cfg)
+theorem C20_event_quiescent (fix : Variant) (c : Conn) (bits : List Bool) (s0 : Cfg)
     (hq : Quiet s0) (hk : s0.topicKey = true) (hc : c ∈ s0.subs)
-    (hun : ∀ op ∈ s0.lops, op ≠ LoopOp.unsub c)
+    (hun : ∀ op ∈ s0.lops, op ≠ LoopOp.unsub c ∧ op ≠ LoopOp.lost c)
     (hpt : s0.pending c ≠ none → s0.timer c = true)
     (h0 : (latest c s0).val = s0.value.val)
     (hs : Serial fix bits s0) :
@@ -141,9 +142,9 @@ theorem C20_event_quiescent (fix : Bool) (c : Conn) (bits : List Bool) (s0 : Cfg
     `c` itself (other connections may write) and nothing had been written to `c` at the start, then
     at quiescence the last EVENT written to `c` carries the final value — or none was written and
     the value equals what `c` knew at the start. -/
-theorem C20_event_quiescent_delivered (fix : Bool) (c : Conn) (bits : List Bool) (s0 : Cfg)
+theorem C20_event_quiescent_delivered (fix : Variant) (c : Conn) (bits : List Bool) (s0 : Cfg)
     (hq : Quiet s0) (hk : s0.topicKey = true) (hc : c ∈ s0.subs)
-    (hun : ∀ op ∈ s0.lops, op ≠ LoopOp.unsub c)
+    (hun : ∀ op ∈ s0.lops, op ≠ LoopOp.unsub c ∧ op ≠ LoopOp.lost c)
     (hpt : s0.pending c ≠ none → s0.timer c = true)
     (h0 : (latest c s0).val = s0.value.val)
     (hs : Serial fix bits s0)
@@ -173,9 +174,9 @@ theorem C20_event_quiescent_delivered (fix : Bool) (c : Conn) (bits : List Bool)
     finished, the sequence of objects it handed to the loop with `call_soon_threadsafe` is
     precisely the sequence of accepted updates that changed the value — none lost, none
     duplicated, none reordered — each enqueued after its own assignment. -/
-theorem C20_handoff_exact (fix : Bool) (c : Conn) (bits : List Bool) (s0 : Cfg)
+theorem C20_handoff_exact (fix : Variant) (c : Conn) (bits : List Bool) (s0 : Cfg)
     (hq : Quiet s0) (hk : s0.topicKey = true) (hc : c ∈ s0.subs)
-    (hun : ∀ op ∈ s0.lops, op ≠ LoopOp.unsub c)
+    (hun : ∀ op ∈ s0.lops, op ≠ LoopOp.unsub c ∧ op ≠ LoopOp.lost c)
     (hpt : s0.pending c ≠ none → s0.timer c = true)
     (h0 : (latest c s0).val = s0.value.val) (hn : NoWrite s0.lops)
     (hw : (run fix bits s0).wpc = .idle) (hu : (run fix bits s0).wups = []) :
@@ -194,7 +195,7 @@ theorem C20_handoff_exact (fix : Bool) (c : Conn) (bits : List Bool) (s0 : Cfg)
     value as its latest event.  Worker: 20 → 21, hand-off enqueued; connection 8 writes 22 (queued
     for subscriber 7); the hand-off is drained afterwards and replaces it; the timer fires. -/
 theorem C20_overlapping_write_counterexample :
-    let s := run true [false, false, false, false, false, false, true, true, true, true, true]
+    let s := run repaired [false, false, false, false, false, false, true, true, true, true, true]
       (init ⟨0, 20⟩ [.write 8 ⟨2, 22⟩, .drain, .fire 7] [⟨⟨1, 21⟩, true⟩] [7])
     Quiet s ∧ s.queue = [] ∧ s.timer 7 = false ∧ s.value = ⟨2, 22⟩ ∧ s.delivered 7 = [⟨1, 21⟩] ∧
     s.knows 7 = ⟨1, 21⟩ := by
@@ -207,24 +208,54 @@ def windowSchedule : List Bool := [true, true, true, false, false, false, false,
 
 def windowStart (lops : List LoopOp) : Cfg := init ⟨0, 20⟩ lops [⟨⟨1, 21⟩, true⟩] []
 
+/-- **A read in progress always returns a representation.**  With the early return using the
+    object it tested (design/fixes/C20-toHAP-double-read.patch), no `to_HAP` of any loop program
+    under any schedule returns `None`: every recorded result is a representation (or a value).
+    The statement is unprovable for the `head` variant: see C20_head_double_read_counterexample. -/
+theorem C20_read_never_none (rc : Bool) (bits : List Bool) (s0 : Cfg) (hq : Quiet s0)
+    (h0 : ∀ r ∈ s0.results, r ≠ Res.nothing) :
+    ∀ r ∈ (run ⟨rc, true⟩ bits s0).results, r ≠ Res.nothing :=
+  (noNothing_run rc bits s0 ⟨h0, by simp [hq.1], by simp [hq.1]⟩).1
+
+/-- `begin … store, re-check (first to_HAP, cache warm); begin, test cache;
+    [worker: begin, assign, clear, clear]; return cache`. -/
+def noneSchedule : List Bool :=
+  [true, true, true, true, true, true, true, false, false, false, false, true]
+
+/-- **HEAD's early return reads the slot twice** (characteristic.py l.412–413 / l.414–415): a
+    worker update that lands between the test and the return makes the read in progress return
+    `None` — GET /accessories carries a `null` entry for the characteristic.  No serial order of
+    {read, update} gives that.  Witness on the `head` variant (re-check present, double read);
+    the same schedule is replayed on the real code by the harness. -/
+theorem C20_head_double_read_counterexample :
+    (run head noneSchedule (windowStart [.toHAP, .toHAP])).results = [.rep ⟨0, 20⟩, .nothing] := by
+  decide
+
+/-- The same for the value-free cache (`accessories_hash`, l.414–415). -/
+theorem C20_head_double_read_novalue_counterexample :
+    (run head [true, true, true, true, true, false, false, false, true]
+      (init ⟨0, 20⟩ [.toHAPnv, .toHAPnv] [⟨⟨1, 21⟩, true⟩] [])).results = [.repNV, .nothing] := by
+  decide
+
+
 /-- `read value; [worker: assign, clear, clear]; store cache` on the unrepaired step function:
     both threads are idle and finished, the cache renders object 0 (payload 20) while `_value` is
     object 1 (payload 21) — and it stays so until the next change.  The same schedule is replayed
     on the real code by the harness. -/
 theorem C20_legacy_window_counterexample :
-    Quiet (run false windowSchedule (windowStart [.toHAP])) ∧
-    (run false windowSchedule (windowStart [.toHAP])).lops = [] ∧
-    (run false windowSchedule (windowStart [.toHAP])).wups = [] ∧
-    (run false windowSchedule (windowStart [.toHAP])).value = ⟨1, 21⟩ ∧
-    (run false windowSchedule (windowStart [.toHAP])).cacheV = some ⟨0, 20⟩ ∧
-    ¬ Fresh (run false windowSchedule (windowStart [.toHAP])) := by
+    Quiet (run shipped windowSchedule (windowStart [.toHAP])) ∧
+    (run shipped windowSchedule (windowStart [.toHAP])).lops = [] ∧
+    (run shipped windowSchedule (windowStart [.toHAP])).wups = [] ∧
+    (run shipped windowSchedule (windowStart [.toHAP])).value = ⟨1, 21⟩ ∧
+    (run shipped windowSchedule (windowStart [.toHAP])).cacheV = some ⟨0, 20⟩ ∧
+    ¬ Fresh (run shipped windowSchedule (windowStart [.toHAP])) := by
   decide
 
 /-- …and every later `to_HAP` keeps showing the old value (cache hit). -/
 theorem C20_legacy_stale_read :
-    Quiet (run false (windowSchedule ++ [true, true, true]) (windowStart [.toHAP, .toHAP])) ∧
-    (run false (windowSchedule ++ [true, true, true]) (windowStart [.toHAP, .toHAP])).value = ⟨1, 21⟩ ∧
-    (run false (windowSchedule ++ [true, true, true]) (windowStart [.toHAP, .toHAP])).results
+    Quiet (run shipped (windowSchedule ++ [true, true, true]) (windowStart [.toHAP, .toHAP])) ∧
+    (run shipped (windowSchedule ++ [true, true, true]) (windowStart [.toHAP, .toHAP])).value = ⟨1, 21⟩ ∧
+    (run shipped (windowSchedule ++ [true, true, true]) (windowStart [.toHAP, .toHAP])).results
       = [.rep ⟨0, 20⟩, .rep ⟨0, 20⟩] := by
   decide
 
@@ -232,10 +263,10 @@ theorem C20_legacy_stale_read :
 
 /-- The same schedule on the repaired step function: the re-check drops the cache. -/
 example :
-    Quiet (run true (windowSchedule ++ [true, true]) (windowStart [.toHAP])) ∧
-    (run true (windowSchedule ++ [true, true]) (windowStart [.toHAP])).value = ⟨1, 21⟩ ∧
-    (run true (windowSchedule ++ [true, true]) (windowStart [.toHAP])).cacheV = none ∧
-    (run true (windowSchedule ++ [true, true]) (windowStart [.toHAP])).results = [.rep ⟨0, 20⟩] := by
+    Quiet (run repaired (windowSchedule ++ [true, true]) (windowStart [.toHAP])) ∧
+    (run repaired (windowSchedule ++ [true, true]) (windowStart [.toHAP])).value = ⟨1, 21⟩ ∧
+    (run repaired (windowSchedule ++ [true, true]) (windowStart [.toHAP])).cacheV = none ∧
+    (run repaired (windowSchedule ++ [true, true]) (windowStart [.toHAP])).results = [.rep ⟨0, 20⟩] := by
   decide
 
 /-- Hypotheses of C20_no_stale / C20_event hold of a concrete start configuration, and a concrete
@@ -245,7 +276,7 @@ def evSchedule : List Bool :=
   [true, true, false, false, true, false, false, true, false, false, true, true, true, true, true, true]
 
 example : Quiet evStart ∧ Fresh evStart ∧ evStart.topicKey = true ∧ 7 ∈ evStart.subs ∧
-    (∀ op ∈ evStart.lops, op ≠ LoopOp.unsub 7) ∧ (latest 7 evStart).val = evStart.value.val := by
+    (∀ op ∈ evStart.lops, op ≠ LoopOp.unsub 7 ∧ op ≠ LoopOp.lost 7) ∧ (latest 7 evStart).val = evStart.value.val := by
   decide
 
 example : NoWrite evStart.lops := by
@@ -265,21 +296,21 @@ def mixSchedule : List Bool :=
    false, false, false, false, false, false,         -- worker: 22 → 23, handed over
    true, true, true, true]                           -- loop: drain, fire
 
-example : Serial true mixSchedule mixStart := by decide
+example : Serial repaired mixSchedule mixStart := by decide
 
 example :
-    Quiet (run true mixSchedule mixStart) ∧ (run true mixSchedule mixStart).queue = [] ∧
-    (run true mixSchedule mixStart).timer 7 = false ∧
-    (run true mixSchedule mixStart).value = ⟨3, 23⟩ ∧
-    (run true mixSchedule mixStart).delivered 7 = [⟨3, 23⟩] ∧
-    (run true mixSchedule mixStart).knows 7 = ⟨3, 23⟩ := by
+    Quiet (run repaired mixSchedule mixStart) ∧ (run repaired mixSchedule mixStart).queue = [] ∧
+    (run repaired mixSchedule mixStart).timer 7 = false ∧
+    (run repaired mixSchedule mixStart).value = ⟨3, 23⟩ ∧
+    (run repaired mixSchedule mixStart).delivered 7 = [⟨3, 23⟩] ∧
+    (run repaired mixSchedule mixStart).knows 7 = ⟨3, 23⟩ := by
   decide
 
 example :
-    Quiet (run true evSchedule evStart) ∧ (run true evSchedule evStart).queue = [] ∧
-    (run true evSchedule evStart).pending 7 = none ∧ (run true evSchedule evStart).timer 7 = false ∧
-    (run true evSchedule evStart).delivered 7 = [⟨1, 21⟩] ∧ Fresh (run true evSchedule evStart) ∧
-    (run true evSchedule evStart).enq = [⟨1, 21⟩] ∧ changes evStart.value evStart.wups = [⟨1, 21⟩] := by
+    Quiet (run repaired evSchedule evStart) ∧ (run repaired evSchedule evStart).queue = [] ∧
+    (run repaired evSchedule evStart).pending 7 = none ∧ (run repaired evSchedule evStart).timer 7 = false ∧
+    (run repaired evSchedule evStart).delivered 7 = [⟨1, 21⟩] ∧ Fresh (run repaired evSchedule evStart) ∧
+    (run repaired evSchedule evStart).enq = [⟨1, 21⟩] ∧ changes evStart.value evStart.wups = [⟨1, 21⟩] := by
   decide
 
 /-- "Equal but not identical": an update with the same payload in a different object makes the
@@ -288,19 +319,14 @@ def eqStart : Cfg := init ⟨0, 20⟩ [.toHAP] [⟨⟨1, 20⟩, true⟩] [7]
 def eqSchedule : List Bool := [true, true, true, false, false, false, false, true, true, true]
 
 example :
-    Quiet (run true eqSchedule eqStart) ∧ (run true eqSchedule eqStart).value = ⟨1, 20⟩ ∧
-    (run true eqSchedule eqStart).cacheV = none ∧ (run true eqSchedule eqStart).queue = [] := by
+    Quiet (run repaired eqSchedule eqStart) ∧ (run repaired eqSchedule eqStart).value = ⟨1, 20⟩ ∧
+    (run repaired eqSchedule eqStart).cacheV = none ∧ (run repaired eqSchedule eqStart).queue = [] := by
   decide
 
-/-- Observation outside C20's demand (not judged by the oracle, reported in the evidence): a
-    `to_HAP` that is preempted between `if cache is not None` (l.412) and `return cache` (l.413)
-    returns `None` for that one in-flight response; the cache and later reads are unaffected. -/
-def noneSchedule : List Bool :=
-  [true, true, true, true, true, true, true, false, false, false, false, true]
-
+/-- On the repaired model the schedule that broke HEAD's early return is harmless. -/
 example :
-    (run true noneSchedule (windowStart [.toHAP, .toHAP])).results = [.rep ⟨0, 20⟩, .nothing] ∧
-    Fresh (run true noneSchedule (windowStart [.toHAP, .toHAP])) := by
+    (run repaired noneSchedule (windowStart [.toHAP, .toHAP])).results = [.rep ⟨0, 20⟩, .rep ⟨0, 20⟩] ∧
+    Fresh (run repaired noneSchedule (windowStart [.toHAP, .toHAP])) := by
   decide
 
 end Hap.Race
